@@ -166,7 +166,7 @@ def job(g, fn, tier, rows=None):
                 try:
                     with T.time_budget(15 if tier == "quick" else 240):
                         v = decide(T.Sub(L[i][j], R[i][j]), g, a, p, reg, asm, res, timeout_ms=10000 if tier == "quick" else 60000)
-                except T.PolyTooBig:
+                except (T.PolyTooBig, MemoryError):
                     v = solver.Verdict("undecided", "normal form too large / time budget")
                 if v.status != "holds":
                     bad.append((i, j, v))
